@@ -668,7 +668,7 @@ Proof.
 Qed.
 
 (** kernels that refuse some input blocks before looking at anything else
-    (an empty series: the Go code indexes element 0) *)
+    (e.g. an empty series when the Go code indexes element 0; no current kernel needs it since fix b73cc97) *)
 Section Guard.
   Context {T : Type}.
   Variables (K KM : kern T) (g : list (list T) -> bool).
